@@ -127,6 +127,35 @@ impl RetryPolicyWrapper {
     }
 }
 
+/// verif hook: lets the out-of-tree verification harness (built with
+/// `--cfg sozu_verif`) read the back-off state and put a policy into the
+/// "down" (`current_tries == max_tries`) and "waiting" (`wait` not yet elapsed)
+/// states without sleeping through real back-off windows. Never compiled into
+/// a normal build.
+#[cfg(sozu_verif)]
+impl ExponentialBackoffPolicy {
+    /// `(current_tries, max_tries, wait)`
+    pub fn verif_state(&self) -> (usize, usize, time::Duration) {
+        (self.current_tries, self.max_tries, self.wait)
+    }
+
+    /// Overwrite `current_tries` and `wait`; `last_try` is left untouched.
+    pub fn verif_set(&mut self, current_tries: usize, wait: time::Duration) {
+        self.current_tries = current_tries;
+        self.wait = wait;
+    }
+
+    /// A policy created directly in the given state (`last_try` = now).
+    pub fn verif_new(max_tries: usize, current_tries: usize, wait: time::Duration) -> Self {
+        ExponentialBackoffPolicy {
+            max_tries,
+            current_tries,
+            last_try: time::Instant::now(),
+            wait,
+        }
+    }
+}
+
 impl From<ExponentialBackoffPolicy> for RetryPolicyWrapper {
     fn from(val: ExponentialBackoffPolicy) -> Self {
         RetryPolicyWrapper::ExponentialBackoff(val)
